@@ -6,7 +6,7 @@
    vmem_get_coords / vmem_coord_ok / vmem_walk_memory / vmem_text_* are regenerated from framebuffer.py on
    every run; peek/poke/get_memory/set_memory/get_block/set_block are model/VideoMem.v.
    All theorems hold for EVERY address and every block length (no bound on the address space is needed). *)
-From Coq Require Import ZArith List Bool.
+From Coq Require Import ZArith List Bool Lia.
 From PCB Require Import lib.Result lib.PyInt gen.Gen_vmem model.VideoMem
   proofs.VideoMem_arith proofs.VideoMem_bits proofs.VideoMem_walk proofs.VideoMem_get proofs.VideoMem_set
   proofs.VideoMem_block proofs.VideoMem_proofs.
@@ -22,6 +22,32 @@ Proof.
   rewrite forallb_forall in S. exact (S f H).
 Qed.
 Print Assumptions C34_table_wf.
+
+(* EGA-type modes: the colour planes that can be written through video memory (master plane mask) are exactly
+   the planes the mode uses (and reads) - in every entry of the regenerated table *)
+Definition planes_ok (m : vmode) : bool :=
+  if vm_kind m =? 1
+  then forallb (fun p => Bool.eqb (Z.testbit (vm_master_mask m) p) (memZ p (vm_planes_used m))) (zseq 0 8)
+  else true.
+Theorem C34_table_planes : forall f mem, In f vmem_mode_table -> planes_ok (f mem) = true.
+Proof.
+  intros f mem H.
+  assert (S : forallb (fun g => planes_ok (g mem)) vmem_mode_table = true) by (vm_compute; reflexivity).
+  rewrite forallb_forall in S. exact (S f H).
+Qed.
+Print Assumptions C34_table_planes.
+
+(* so a used plane is writable exactly when its bit is set in the plane mask register *)
+Theorem C34_plane_writable : forall m reg p, planes_ok m = true -> vm_kind m = 1 -> 0 <= p < 8 ->
+  memZ p (vm_planes_used m) = true -> Z.testbit (ega_mask m reg) p = Z.testbit reg p.
+Proof.
+  intros m reg p Hok K Hp Hu. unfold planes_ok in Hok. rewrite K in Hok. cbn [Z.eqb Pos.eqb] in Hok.
+  rewrite forallb_forall in Hok. specialize (Hok p). rewrite Hu in Hok.
+  assert (Hin : In p (zseq 0 8)) by (apply in_zseq; Lia.lia).
+  specialize (Hok Hin). apply Bool.eqb_prop in Hok.
+  unfold ega_mask. rewrite Z.land_spec, Hok. apply andb_true_r.
+Qed.
+Print Assumptions C34_plane_writable.
 
 (* ---- PEEK: the packing of the pixels the address covers (graphics) *)
 Theorem C34_peek : forall m st a, wf_gmode m = true ->
